@@ -1,8 +1,10 @@
 //! bgv — property-based testing / fuzzing driver for rust-bindgen (see /verif/DESIGN.md)
 
 mod bg;
+mod cmodel;
 mod corpus;
 mod mutate;
+mod probe;
 mod engine;
 mod props;
 mod rs;
